@@ -36,8 +36,17 @@ from calmjs.parse.ruletypes import (
     BlockComment as RuleTypeBlockComment,
 )
 from calmjs.parse.lexers.es5 import PATT_LINE_CONTINUATION
+from calmjs.parse.unicode_chars import (
+    COMBINING_MARK,
+    CONNECTOR_PUNCTUATION,
+)
 
-required_space = re.compile(r'^(?:\w\w|\+\+|\-\-|//|\w\$|\$\w)$')
+# any character that may be part of an identifier name (7.6), aside from
+# the dollar sign; \w alone lacks the combining marks and connector
+# punctuations.
+_w = r'(?:\w|' + COMBINING_MARK + r'|' + CONNECTOR_PUNCTUATION + r')'
+required_space = re.compile(
+    r'^(?:' + _w + _w + r'|\+\+|\-\-|//|' + _w + r'\$|\$' + _w + r')$')
 
 # the various assignments symbols; for dealing with pretty spacing
 assignment_tokens = {
